@@ -9,6 +9,7 @@
 package deploypath
 
 import (
+	"context"
 	"errors"
 	"fmt"
 	"math"
@@ -17,7 +18,11 @@ import (
 	"verifharness/cw"
 	"verifharness/vh"
 
+	enginetypes "github.com/projecteru2/core/engine/types"
+	"github.com/projecteru2/core/resource/cobalt"
 	ctypes "github.com/projecteru2/core/resource/plugins/cpumem/types"
+	pluginmocks "github.com/projecteru2/core/resource/plugins/mocks"
+	plugintypes "github.com/projecteru2/core/resource/plugins/types"
 	resourcetypes "github.com/projecteru2/core/resource/types"
 	"github.com/projecteru2/core/strategy"
 	"github.com/projecteru2/core/types"
@@ -100,6 +105,75 @@ func classify(plan map[string]int, err error) (string, string) {
 	return "Model.OutOfFuel", "err-other:" + err.Error()
 }
 
+// scripted is a second resource plugin: it offers the scripted capacity / usage /
+// rate / weight for some nodes and accepts every other call with an empty answer.
+type scripted struct {
+	*pluginmocks.Plugin
+	caps map[string]*plugintypes.NodeDeployCapacity
+}
+
+func (p *scripted) Name() string { return "scripted" }
+func (p *scripted) AddNode(context.Context, string, resourcetypes.RawParams, *enginetypes.Info) (*plugintypes.AddNodeResponse, error) {
+	return &plugintypes.AddNodeResponse{}, nil
+}
+func (p *scripted) RemoveNode(context.Context, string) (*plugintypes.RemoveNodeResponse, error) {
+	return &plugintypes.RemoveNodeResponse{}, nil
+}
+func (p *scripted) GetNodesDeployCapacity(_ context.Context, nodenames []string, _ resourcetypes.RawParams) (*plugintypes.GetNodesDeployCapacityResponse, error) {
+	r := &plugintypes.GetNodesDeployCapacityResponse{NodeDeployCapacityMap: map[string]*plugintypes.NodeDeployCapacity{}}
+	for _, n := range nodenames {
+		if c, ok := p.caps[n]; ok {
+			cp := *c
+			r.NodeDeployCapacityMap[n] = &cp
+			r.Total += c.Capacity // ignored by the manager
+		}
+	}
+	return r, nil
+}
+func (p *scripted) CalculateDeploy(_ context.Context, _ string, count int, _ resourcetypes.RawParams) (*plugintypes.CalculateDeployResponse, error) {
+	r := &plugintypes.CalculateDeployResponse{}
+	for i := 0; i < count; i++ {
+		r.EnginesParams = append(r.EnginesParams, resourcetypes.RawParams{})
+		r.WorkloadsResource = append(r.WorkloadsResource, resourcetypes.RawParams{})
+	}
+	return r, nil
+}
+func (p *scripted) CalculateRealloc(context.Context, string, resourcetypes.RawParams, resourcetypes.RawParams) (*plugintypes.CalculateReallocResponse, error) {
+	return &plugintypes.CalculateReallocResponse{EngineParams: resourcetypes.RawParams{}, DeltaResource: resourcetypes.RawParams{}, WorkloadResource: resourcetypes.RawParams{}}, nil
+}
+func (p *scripted) CalculateRemap(context.Context, string, map[string]resourcetypes.RawParams) (*plugintypes.CalculateRemapResponse, error) {
+	return &plugintypes.CalculateRemapResponse{EngineParamsMap: map[string]resourcetypes.RawParams{}}, nil
+}
+func (p *scripted) SetNodeResourceUsage(context.Context, string, resourcetypes.RawParams, resourcetypes.RawParams, []resourcetypes.RawParams, bool, bool) (*plugintypes.SetNodeResourceUsageResponse, error) {
+	return &plugintypes.SetNodeResourceUsageResponse{}, nil
+}
+func (p *scripted) GetNodeResourceInfo(context.Context, string, []resourcetypes.RawParams) (*plugintypes.GetNodeResourceInfoResponse, error) {
+	return &plugintypes.GetNodeResourceInfoResponse{}, nil
+}
+func (p *scripted) FixNodeResource(context.Context, string, []resourcetypes.RawParams) (*plugintypes.GetNodeResourceInfoResponse, error) {
+	return &plugintypes.GetNodeResourceInfoResponse{}, nil
+}
+
+func (p *scripted) SetNodeResourceCapacity(context.Context, string, resourcetypes.RawParams, resourcetypes.RawParams, bool, bool) (*plugintypes.SetNodeResourceCapacityResponse, error) {
+	return &plugintypes.SetNodeResourceCapacityResponse{}, nil
+}
+func (p *scripted) SetNodeResourceInfo(context.Context, string, resourcetypes.RawParams, resourcetypes.RawParams) (*plugintypes.SetNodeResourceInfoResponse, error) {
+	return &plugintypes.SetNodeResourceInfoResponse{}, nil
+}
+func (p *scripted) GetMostIdleNode(_ context.Context, nodenames []string) (*plugintypes.GetMostIdleNodeResponse, error) {
+	return &plugintypes.GetMostIdleNodeResponse{Nodename: nodenames[0], Priority: 0}, nil
+}
+func (p *scripted) GetMetricsDescription(context.Context) (*plugintypes.GetMetricsDescriptionResponse, error) {
+	return &plugintypes.GetMetricsDescriptionResponse{}, nil
+}
+func (p *scripted) GetMetrics(context.Context, string, string) (*plugintypes.GetMetricsResponse, error) {
+	return &plugintypes.GetMetricsResponse{}, nil
+}
+
+func coqNdc(v *plugintypes.NodeDeployCapacity) string {
+	return fmt.Sprintf("(mkNdc %s %s %s %s)", vh.ZI(v.Capacity), vh.F64(v.Usage), vh.F64(v.Rate), vh.F64(v.Weight))
+}
+
 type request struct {
 	bind     bool
 	cpu      float64
@@ -176,7 +250,7 @@ func create(w *cw.World, opts *types.DeployOptions) (map[string]int, int, error)
 // Stream emits n cases (quick / thorough as given) for property prop.
 func Stream(t *testing.T, prop string, quick, thorough int) {
 	r := vh.New(t, prop, "path")
-	r.Coq("From Verif Require Import Base.GoFloat Cpumem.Types Strategy.Model Strategy.Glue Calcium.DeployPath.\nClose Scope Z_scope.",
+	r.Coq("From Verif Require Import Base.GoFloat Cpumem.Types Cobalt.Merge Strategy.Model Strategy.Glue Calcium.DeployPath.\nClose Scope Z_scope.",
 		"Calcium.DeployPath.pcase", "Calcium.DeployPath.pagree", "Calcium.DeployPath.pok")
 	r.Shard = 60
 	rng := r.Rng
@@ -184,6 +258,7 @@ func Stream(t *testing.T, prop string, quick, thorough int) {
 	n := r.N(quick, thorough)
 	var w *cw.World
 	var specs []nodeSpec
+	var second *scripted
 	left := 0
 	for i := 0; i < n; i++ {
 		if left == 0 { // a fresh world with 1-4 nodes
@@ -191,6 +266,15 @@ func Stream(t *testing.T, prop string, quick, thorough int) {
 				w.Close()
 			}
 			w = cw.New(t, cw.Options{})
+			second = nil
+			if rng.Intn(5) < 2 { // two plugins: the manager merges their answers
+				second = &scripted{Plugin: &pluginmocks.Plugin{}, caps: map[string]*plugintypes.NodeDeployCapacity{}}
+				mgr, ok := w.RawRmgr.(*cobalt.Manager)
+				if !ok {
+					t.Fatalf("deploypath: resource manager is %T, not *cobalt.Manager", w.RawRmgr)
+				}
+				mgr.AddPlugins(second)
+			}
 			if err := w.AddPod("pod"); err != nil {
 				t.Fatal(err)
 			}
@@ -202,6 +286,12 @@ func Stream(t *testing.T, prop string, quick, thorough int) {
 					t.Fatal(err)
 				}
 				specs = append(specs, s)
+				if second != nil && rng.Intn(6) > 0 { // the second plugin does not offer every node
+					second.caps[s.name] = &plugintypes.NodeDeployCapacity{
+						Capacity: []int{0, 1, 2, 3, 5, 9, math.MaxInt64}[rng.Intn(7)],
+						Usage:    float64(rng.Intn(9)) / 8, Rate: float64(rng.Intn(5)) / 16,
+						Weight:   []float64{1, 1, 2, 100}[rng.Intn(4)]}
+				}
 			}
 			left = 3 + rng.Intn(4)
 		}
@@ -239,7 +329,7 @@ func Stream(t *testing.T, prop string, quick, thorough int) {
 		if rng.Intn(25) == 0 {
 			need = 0
 		}
-		if rng.Intn(25) == 0 {
+		if rng.Intn(25) == 0 && need > 0 { // (CreateWorkload checks a zero count before the strategy name)
 			s = "NOPE"
 		}
 		opts := &types.DeployOptions{
@@ -274,15 +364,20 @@ func Stream(t *testing.T, prop string, quick, thorough int) {
 		}
 		repTerms := []string{}
 		unlimited := false
-		repNames := map[string]int{}
-		for k, v := range reported {
-			repNames[k] = v.Capacity
-		}
-		for _, k := range vh.SortedKeys(repNames) {
-			repTerms = append(repTerms, vh.Pair(cstr(k), vh.ZI(repNames[k])))
-			if repNames[k] == math.MaxInt64 {
+		for _, k := range vh.SortedKeys(reported) {
+			v := reported[k]
+			repTerms = append(repTerms, fmt.Sprintf("(mkCapE %s %s %s %s)", cstr(k), vh.ZI(v.Capacity), vh.F64(v.Usage), vh.F64(v.Rate)))
+			if v.Capacity == math.MaxInt64 {
 				unlimited = true
 			}
+		}
+		extra := "[]"
+		if second != nil {
+			it := []string{}
+			for _, k := range vh.SortedKeys(second.caps) {
+				it = append(it, vh.Pair(cstr(k), coqNdc(second.caps[k])))
+			}
+			extra = vh.List([]string{vh.List(it)})
 		}
 		// the two real calls
 		msg, cerr := w.C.CalculateCapacity(w.Ctx, opts)
@@ -293,10 +388,15 @@ func Stream(t *testing.T, prop string, quick, thorough int) {
 		capTerm, capClass := classify(capPlan, cerr)
 		created, failed, werr := create(w, opts)
 		crTerm, crClass := classify(created, werr)
+		afterTerms := []string{}
+		for _, sp := range specs {
+			_, u := readNode(t, w, sp.name)
+			afterTerms = append(afterTerms, vh.Pair(cstr(sp.name), coqNR(u)))
+		}
 
-		term := fmt.Sprintf("(mkPC %s %s %s %s %s %s %s %s %s %s %s %s %s)",
-			vh.ZI(100), vh.Z(-1), q.coq(), vh.List(nodeTerms), coqPlan(status), coqStrategy(s), vh.ZI(need), vh.ZI(limit),
-			vh.List(repTerms), vh.ZI(total), capTerm, crTerm, vh.ZI(failed))
+		term := fmt.Sprintf("(mkPC %s %s %s %s %s %s %s %s %s %s %s %s %s %s %s)",
+			vh.ZI(100), vh.Z(-1), q.coq(), vh.List(nodeTerms), extra, coqPlan(status), coqStrategy(s), vh.ZI(need), vh.ZI(limit),
+			vh.List(repTerms), vh.ZI(total), capTerm, crTerm, vh.ZI(failed), vh.List(afterTerms))
 		desc := map[string]any{"strategy": s, "need": need, "limit": limit, "request": map[string]any{"bind": q.bind, "cpu": q.cpu, "memory": q.mem},
 			"nodes": jns, "total": total, "calculate_capacity": map[string]any{"outcome": capClass, "plan": capPlan},
 			"create": map[string]any{"outcome": crClass, "created": created, "failed_instances": failed}}
@@ -305,6 +405,11 @@ func Stream(t *testing.T, prop string, quick, thorough int) {
 		r.Count("capacity=" + capClass)
 		r.Count("create=" + crClass)
 		r.Count(fmt.Sprintf("nodes=%d", len(specs)))
+		if second != nil {
+			r.Count("plugins=2")
+		} else {
+			r.Count("plugins=1")
+		}
 		if unlimited {
 			r.Count("unlimited-capacity")
 		}
@@ -314,7 +419,8 @@ func Stream(t *testing.T, prop string, quick, thorough int) {
 	if w != nil {
 		w.Close()
 	}
-	r.Finish("deploy path end to end on a real Calcium (embedded etcd, real cpumem plugin, fake engine): worlds of 1-4 nodes " +
+	r.Finish("deploy path end to end on a real Calcium (embedded etcd, real cpumem plugin, fake engine; 2 worlds in 5 with a second " +
+		"scripted plugin offering its own capacity/usage/rate/weight for a subset of the nodes): worlds of 1-4 nodes " +
 		"(1-6 cores, 300-4000 bytes) used for 3-6 consecutive requests each (so later cases see usage and deploy status left " +
 		"by earlier creates); bound / memory-only / unlimited / unsatisfiable requests; all strategies, limit 0-3, a third of " +
 		"the counts at the manager's total -1/0/+1; CalculateCapacity then CreateWorkload with the same options; " +
